@@ -172,7 +172,9 @@ func drawCalib(t *rapid.T) c16Calib {
 		}
 		return c16Calib{text: &s, m: m, d: d, valid: true, checkVal: true, desc: fmt.Sprintf("%q", s)}
 	case "malformed":
-		s := rapid.SampledFrom([]string{"", "1000", "1000\n", "abc\n1000\n", "1000\nxyz\n", "\n\n", "1000,1000\n"}).Draw(t, "bad")
+		// wrong line structure, too: two numbers on one line, a blank line before or between the values (padding around a number is NOT in the set: tolerating it would still read line 1 and line 2 as written)
+		s := rapid.SampledFrom([]string{"", "1000", "1000\n", "abc\n1000\n", "1000\nxyz\n", "\n\n", "1000,1000\n",
+			"1000 7\n500\n", "1000 500\n", "1000 500", "\n1000\n500\n", "1000\n\n500\n", "1000\t500\n"}).Draw(t, "bad")
 		return c16Calib{text: &s, valid: false, desc: fmt.Sprintf("malformed %q", s)}
 	default:
 		s := "1000\n0\n"
